@@ -87,12 +87,25 @@ package ps
 
 // ---- secret sharing, subset enumeration (same code as package bls) ----------------------------------------------------
 
+// ---- secret sharing algebra (C18): the real functions refine recursive specification functions over the abstract field ----
+// polyEval(a, x, k) = sum over j < k of x^j * a[j]          (evaluation of the polynomial with coefficients a[0..k-1] at x)
+//@ spec func polyEval(a seq[F], x int, k int) F = ite(k <= 0, fint(0), fadd(polyEval(a, x, k-1), fmul(fpow(fint(x), fint(k-1)), a[k-1])))
+//@
+//@ lemma polyEvalCong(a seq[F], b seq[F], x int, k int)
+//@   props C18
+//@   induction k
+//@   pattern polyEval(a, x, k), polyEval(b, x, k)
+//@   requires forall j int :: 0 <= j && j < k ==> a[j] == b[j]
+//@   assert [congruent] polyEval(a, x, k) == polyEval(b, x, k)
+//@
 //@ func (Polynomial).ValueAt
 //@   props C18 C11
 //@   requires curveOK() && forall k int :: 0 <= k && k < len(p) ==> p[k] != nil
 //@   modifies nothing
 //@   ensures [non-nil] result != nil
+//@   ensures [refines] val(result) == polyEval(old(vals(p)), x, len(p))
 //@   loop 0: invariant sum != nil && 0 <= i
+//@   loop 0: invariant [partial-sum] i <= len(p) && val(sum) == polyEval(old(vals(p)), x, i)
 //@
 //@ func (*SSS).Gen
 //@   props C18 C11
@@ -100,10 +113,12 @@ package ps
 //@   modifies nothing
 //@   ensures [shape] len(result.0) == sss.Threshold && len(result.1) == n
 //@   ensures [non-nil] (forall k int :: 0 <= k && k < len(result.0) ==> result.0[k] != nil) && (forall k int :: 0 <= k && k < n ==> result.1[k] != nil)
+//@   ensures [shares-on-polynomial] forall k int :: { result.1[k] } 0 <= k && k < n ==> val(result.1[k]) == polyEval(vals(result.0), k+1, sss.Threshold)
 //@   loop 0: invariant len(polynomial) == sss.Threshold && 0 <= i && forall k int :: 0 <= k && k < i ==> polynomial[k] != nil
 //@   loop 1: invariant len(polynomial) == sss.Threshold && len(shares) == n && 1 <= evaluationPoint &&
 //@                     (forall k int :: 0 <= k && k < len(polynomial) ==> polynomial[k] != nil) &&
 //@                     (forall k int :: 0 <= k && k < evaluationPoint-1 ==> shares[k] != nil)
+//@   loop 1: invariant [on-polynomial] forall k int :: { shares[k] } 0 <= k && k < evaluationPoint-1 ==> val(shares[k]) == polyEval(vals(polynomial), k+1, sss.Threshold)
 //@
 //@ func secretShare
 //@   props C11
@@ -111,15 +126,46 @@ package ps
 //@   modifies nothing
 //@   ensures len(result) == n && forall k int :: 0 <= k && k < n ==> result[k] != nil
 //@
+// lagSpec(a, i, k) = product over the j < k with a[j] != i of a[j] / (a[j] - i): the Lagrange coefficient at zero of the
+// point i among the points a[0..k-1]; prodAll(b, m) = b[0] * ... * b[m-1]
+//@ spec func lterm(j int, i int) F = fmul(fint(j), finv(fsub(fint(j), fint(i))))
+//@ spec func lagSpec(a seq[int], i int, k int) F = ite(k <= 0, fint(1), ite(a[k-1] == i, lagSpec(a, i, k-1), fmul(lagSpec(a, i, k-1), lterm(a[k-1], i))))
+//@ spec func prodAll(b seq[F], m int) F = ite(m <= 0, fint(1), fmul(prodAll(b, m-1), b[m-1]))
+//@ axiom [one_mul] forall x F :: fmul(fint(1), x) == x
+//@
+//@ lemma prodAllCong(a seq[F], b seq[F], m int)
+//@   props C18
+//@   induction m
+//@   pattern prodAll(a, m), prodAll(b, m)
+//@   requires forall j int :: 0 <= j && j < m ==> a[j] == b[j]
+//@   assert [congruent] prodAll(a, m) == prodAll(b, m)
+//@
 //@ func lagrangeCoefficient
 //@   props C10 C18
 //@   requires curveOK() && len(evaluationPoints) >= 2
 //@   requires [distinct] forall a int, b int :: 0 <= a && a < b && b < len(evaluationPoints) ==> evaluationPoints[a] != evaluationPoints[b]
 //@   modifies nothing
 //@   ensures  [non-nil] result != nil
+//@   ensures  [refines] val(result) == lagSpec(old(vals(evaluationPoints)), evaluatedAt, len(evaluationPoints))
 //@   loop 0: invariant [elems]    forall m int :: 0 <= m && m < len(prodElements) ==> prodElements[m] != nil
 //@   loop 0: invariant [nonempty] forall k int :: 0 <= k && k <= rangeindex && evaluationPoints[k] != evaluatedAt ==> len(prodElements) > 0
+//@   loop 0: invariant [factors]  prodAll(vals(prodElements), len(prodElements)) == lagSpec(old(vals(evaluationPoints)), evaluatedAt, rangeindex+1)
 //@   loop 1: invariant [prod]     prod != nil && 1 <= i
+//@   loop 1: invariant [partial-product] i <= len(prodElements) && val(prod) == prodAll(vals(prodElements), i)
+//@
+// recF(s, a, n, k) = sum over j < k of lagSpec(a, a[j], n) * s[a[j]-1]   (shares are indexed by evaluation point)
+//@ spec func recF(s seq[F], a seq[int], n int, k int) F = ite(k <= 0, fint(0), fadd(recF(s, a, n, k-1), fmul(s[a[k-1]-1], lagSpec(a, a[k-1], n))))
+//@
+//@ func (Shares).reconstruct
+//@   props C18
+//@   requires curveOK() && len(evaluationPoints) >= 2
+//@   requires [shares]   forall m int :: 0 <= m && m < len(s) ==> s[m] != nil
+//@   requires [points]   forall a int :: 0 <= a && a < len(evaluationPoints) ==> 1 <= evaluationPoints[a] && evaluationPoints[a] <= len(s)
+//@   requires [distinct] forall a int, b int :: 0 <= a && a < b && b < len(evaluationPoints) ==> evaluationPoints[a] != evaluationPoints[b]
+//@   modifies nothing
+//@   ensures  [refines] result != nil && val(result) == recF(old(vals(s)), old(vals(evaluationPoints)), len(evaluationPoints), len(evaluationPoints))
+//@   loop 0: invariant [partial-sum] sum != nil && rangeindex < len(evaluationPoints) && val(sum) == recF(old(vals(s)), old(vals(evaluationPoints)), len(evaluationPoints), rangeindex+1)
+//@
 //@
 //@ func encodeMsg
 //@   props C01 C05
@@ -168,6 +214,9 @@ package ps
 //@   ensures len(result) == len(pks) && forall k int :: 0 <= k && k < len(pks) ==> result[k] == pks[k].Y[index]
 //@   loop 0: invariant len(res) == len(pks) && 0 <= i && forall k int :: 0 <= k && k < i ==> res[k] == pks[k].Y[index]
 //@
+// aggG2(pk, a, n, z, k)  = z + sum over j < k of lagSpec(a, a[j], n) * pk[a[j]-1] (keys are indexed by evaluation point)
+//@ spec func aggG2(pk seq[G2], a seq[int], n int, z G2, k int) G2 = ite(k <= 0, z, g2add(aggG2(pk, a, n, z, k-1), g2mul(pk[a[k-1]-1], lagSpec(a, a[k-1], n))))
+//@
 //@ func localAggregateECPoints
 //@   props C10 C18
 //@   requires curveOK() && len(evaluationPoints) >= 2
@@ -176,7 +225,11 @@ package ps
 //@   requires [distinct] forall a int, b int :: 0 <= a && a < b && b < len(evaluationPoints) ==> evaluationPoints[a] != evaluationPoints[b]
 //@   modifies heap:L!alg!G2
 //@   ensures  [non-nil] result != nil && fresh(result)
-//@   loop 0: invariant sum != nil && 0 <= i
+//@   ensures  [refines] val(result) == aggG2(old(vals(points)), old(vals(evaluationPoints)), len(evaluationPoints), g2sub(old(val(c.GenG2)), old(val(c.GenG2))), len(evaluationPoints))
+//@   ensures  [keys-unchanged] forall m int :: { points[m] } 0 <= m && m < len(points) ==> val(points[m]) == old(val(points[m]))
+//@   loop 0: invariant sum != nil && 0 <= i && fresh(sum)
+//@   loop 0: invariant [keys-unchanged] forall m int :: { points[m] } 0 <= m && m < len(points) ==> val(points[m]) == old(val(points[m]))
+//@   loop 0: invariant [partial-sum] i <= len(evaluationPoints) && val(sum) == aggG2(old(vals(points)), old(vals(evaluationPoints)), len(evaluationPoints), g2sub(old(val(c.GenG2)), old(val(c.GenG2))), i)
 //@
 //@ func localAggregatePublicKeys
 //@   props C10 C18 C05
